@@ -85,7 +85,7 @@ def path_text_judge(ops, obs):
         elif t[0] == 'rel' and len(res) == 2:
             f, to, r = unhex(t[1]), unhex(t[2]), unhex(res[0])
             lf, lt = lex_of(f), lex_of(to)
-            if lf[0] == lt[0] and lf[1] == 0:
+            if lf[0] == lt[0] and lf[1] <= lt[1]:
                 j = lex_of((f + b'/' + r) if f else r)
                 if j != lt:
                     return (k, 'does-not-denote-to', 'getRelativePath(`%s`, `%s`) = `%s`: appended to from it denotes (%s), to denotes (%s)' % (
@@ -795,11 +795,98 @@ class Bad(Exception):
     pass
 
 
+def plain_parts(text, cwd_moved):
+    """the names of a path text of plain names, as a list below the scratch root (relative texts start in `in`; absolute
+    ones lead through the guard levels); None for anything else ('.', '..', empty components, backslashes)"""
+    s = text.decode('latin-1')
+    if not s or '\\' in s:
+        return None
+    if s.startswith('/'):
+        parts = s[1:].split('/')
+        if parts[:3] != ['g1', 'g2', 'g3'] or len(parts) < 4:
+            return None
+        parts = parts[3:]
+    else:
+        if cwd_moved:
+            return None
+        parts = ['in'] + s.split('/')
+    if any(x in ('', '.', '..') for x in parts):
+        return None
+    return parts
+
+
+def plain_key(text, tree, cwd_moved):
+    """the place a text of plain names leads to through real directories (every proper prefix is a directory of the tree)"""
+    parts = plain_parts(text, cwd_moved)
+    if parts is None:
+        return None
+    for k in range(1, len(parts)):
+        v = tree.get('/'.join(parts[:k]))
+        if v is None or v[0] != 'd':
+            return None
+    return '/'.join(parts)
+
+
+def obliged(op, t, res, pr, tree, cwd_moved, open_before):
+    """What the text obliges to SUCCEED ("files return exactly the bytes written across ... copy / rename", "create makes all
+    missing parents", "recursive unlink removes exactly the given tree" say nothing if the operation may always answer
+    false): texts of plain names through real directories, the parent there, the place free (or, for copy, a regular
+    file to overwrite), no injected outcome consumed.  -> (rule, message) when the answer false is not allowed."""
+    if res[0] != '0':
+        return None
+    if op == 'open':
+        h, fl = int(t[1]) & 7, int(t[3])
+        if h in open_before:
+            return None                                   # a File that is open refuses a second open
+        T, P = pr.get('d', '-'), pr.get('p', '-')
+        if T in tree and tree[T][0] == 'f':
+            return ('open-existing-file', 'open says false for the existing regular file `%s`' % T)
+        if (fl & 2) and not (fl & 8) and T == '-' and P != '-' and P[0] not in '?!' and P not in tree:
+            return ('open-new-file', 'open for writing (without openFlag) says false although `%s` is free and its directory exists' % P)
+    elif op == 'copy':
+        S = pr.get('s', '-')
+        K = plain_key(unhex(t[2]), tree, cwd_moved)
+        if pr.get('x', '0') in ('0', '', '-') and S in tree and tree[S][0] == 'f' and K is not None and K != S and (
+                K not in tree or (tree[K][0] == 'f' and t[3] != '1')):
+            return ('copy-must-succeed', 'copy says false: the source `%s` is a regular file, the destination `%s` is %s in an existing directory' % (
+                S, K, 'free' if K not in tree else 'a regular file'))
+    elif op == 'rename':
+        F = pr.get('s', '-')
+        K = plain_key(unhex(t[2]), tree, cwd_moved)
+        last = unhex(t[1]).rsplit(b'/', 1)[-1]
+        if (F in tree and K is not None and K not in tree and not under(K, F) and last not in (b'', b'.', b'..')
+                and not (t[3] == '1' and tree[F][0] == 'd')):
+            return ('rename-must-succeed', 'rename says false: the source `%s` exists, the destination `%s` is free in an existing directory' % (F, K))
+    elif op == 'create':
+        parts = plain_parts(unhex(t[1]), cwd_moved)
+        if parts is not None:
+            for k in range(1, len(parts) + 1):
+                v = tree.get('/'.join(parts[:k]))
+                if v is None:
+                    break
+                if v[0] != 'd':
+                    return None
+            return ('create-must-succeed', 'Directory::create says false although only directories (or nothing) lie on the way')
+    elif op in ('dunlink', 'purge'):
+        K = plain_key(unhex(t[1]), tree, cwd_moved)
+        if (K is not None and K != 'in' and not cwd_moved and K in tree and tree[K][0] == 'd' and pr.get('ff', '0') != '1'
+                and (t[2] == '1' or not any(under(q, K) and q != K for q in tree))):
+            return ('%s-must-succeed' % ('unlink' if op == 'dunlink' else 'purge'),
+                    '%s says false for the directory `%s` (no call was made to fail)' % ('Directory::unlink' if op == 'dunlink' else 'Directory::purge', K))
+    elif op == 'funlink':
+        F = pr.get('s', '-')
+        if F in tree and tree[F][0] != 'd' and not t[1].endswith('2f'):
+            return ('file-unlink-must-succeed', 'File::unlink says false for `%s`, which is a file or a link' % F)
+    return None
+
+
 def fs_text_judge(ops, obs):
     """-> None, or (line index, rule, message) for the first operation whose observed outcome is not
     one the property text allows"""
     tree = {'in': ('d',), 'out': ('d',)}
     H = {}
+    cwd_moved = False
+    open_before = set()          # the handles the library reports open after the previous line
     for k, line in enumerate(ops):
         if k >= len(obs):
             return None
@@ -1111,6 +1198,12 @@ def fs_text_judge(ops, obs):
                         raise Bad('purge-failed-outside', 'a failed purge removed `%s`, outside the directory it was given' % out_[0][:60])
             else:
                 return None
+            # what the text obliges to succeed
+            ob = obliged(op, t, res, pr, tree, cwd_moved, open_before)
+            if ob:
+                raise Bad(ob[0], ob[1])
+            if op == 'chdir' and res[0] == '1':
+                cwd_moved = True
             # the tree afterwards must be exactly the expected one
             exp_toks = set(tok_of(q, v) for q, v in exp.items())
             if exp_toks != post_toks:
@@ -1133,6 +1226,7 @@ def fs_text_judge(ops, obs):
             return (k, b.args[0], b.args[1])
         # carry the expected (= observed) tree forward
         tree = exp
+        open_before = set(hs)
         for h in [h for h, hh in H.items() if hh['path'] not in tree]:
             H.pop(h)
     return None
@@ -1145,6 +1239,31 @@ def consumed_fault(obs_line):
         return False
     pr = dict(x.partition('=')[::2] for x in secs[3].split(' '))
     return pr.get('ff', '0') == '1' or pr.get('x', '0') not in ('0', '', '-')
+
+
+def spec_lines_that_count(spec, impl):
+    """The Spec-mode lines of a file-system case that are held against the implementation as the PROPERTY.
+    A line with the token M was computed by running the Model (open / handle operations / copy / rename / create / unlink /
+    set-up calls ...): for these operations the property oracle is fs_text_judge alone - an answer that differs from the
+    Model's and that the text allows (rename(directory, new, failIfExists) made to work; copy onto the same empty file
+    accepted) is no failure of the property.  At the first such difference the Spec, whose state has gone the Model's
+    way, is not consulted for the rest of the case; the difference shows as model/implementation correspondence
+    (no-failing-input-found).  Lines without M come from the Coq Spec (readAll(path), enumeration, getAbsolutePath,
+    purge on plain paths) and count in full.  A sanitizer / crash line (!) always counts.  Token F: under_faults."""
+    from vf import line_matches
+    out = []
+    for k, line in enumerate(spec):
+        m = line.startswith('M ')
+        if m:
+            line = line[2:]
+        if line.startswith('F '):
+            if k < len(impl) and consumed_fault(impl[k]):
+                return out, impl[:k]
+            line = line[2:]
+        if m and k < len(impl) and not impl[k].startswith('!') and not line_matches(line, impl[k]):
+            return out, impl[:k]
+        out.append(line)
+    return out, impl
 
 
 def under_faults(spec, impl):
@@ -1176,7 +1295,7 @@ class C19(Check):
                   '(idempotent; lexically equivalent to its input, where equivalence = same kind and same resolution against '
                   'every current directory; equivalent paths get the same text), directory+base and stem+extension recompose the '
                   'path, the scanners equal the reference "before/after the last separator (dot)", and from + getRelativePath(from,to) '
-                  'simplifies to simplifyPath(to) whenever a lexical answer exists. B (files/directories): executable model of the '
+                  'simplifies to simplifyPath(to) whenever a lexical answer exists (same kind, `from` keeps no more leading ".." than `to`). B (files/directories): executable model of the '
                   'library logic (open flag mapping, size/readAll/write/seek, rename with source check and exclusive placeholder, '
                   'copy with same-file refusal, transfer loop and clean-up, recursive create, recursive unlink by entry type) over a '
                   'Gallina file-system tree with files, directories and symbolic links; any history on a handle of any mode (read-only, '
@@ -1210,7 +1329,19 @@ class C19(Check):
                   'did, the fault-free expectation applies in full (theorem unlink_fault_not_consumed_is_fault_free: such a run is the fault-free '
                   'run); when one did, the answer true requires the exact result, the answer false requires no new name, nothing altered, removals '
                   'inside the given directory only (copy: at most the one destination file, holding a prefix of the source) - which call fails and '
-                  'which entries are left is predicted by the model alone and compared as correspondence.')
+                  'which entries are left is predicted by the model alone and compared as correspondence. '
+                  'Round 5: (a) the property oracle for part B is the reading of the text (fs_text_judge) ALONE for every operation whose Spec-mode line is '
+                  'the Model\'s answer (open, handle operations, copy, rename, create, unlink, set-up calls: token M) - a difference to the Model that the text '
+                  'allows is reported as correspondence (no-failing-input-found), the Spec is not consulted for the rest of such a case; lines computed from the '
+                  'Coq Spec (readAll(path), enumeration, getAbsolutePath, purge on plain paths) still count in full. (b) So that the text judge stands alone it '
+                  'also states what the text obliges to SUCCEED (plain names through real directories, free place or - copy - a regular file to overwrite, no '
+                  'injected outcome consumed): open of an existing regular file / of a new file for writing, copy, rename, create, recursive unlink, purge, '
+                  'File::unlink must answer true; the theorems copy_succeeds, copy_overwrites, rename_succeeds (+ _on_plain_names) prove it of the model - before, every '
+                  'copy / rename theorem was conditional on the answer. (c) Part A has its own executable reading of the text (path_text_judge): a path is walked '
+                  'over an abstract tree to (absolute?, levels escaped above the start, names left); simplifyPath must keep that triple and be idempotent; '
+                  'from + "/" + getRelativePath(from, to) must have the triple of `to` whenever the kinds agree and `from` escapes no further than `to`. '
+                  '(d) offsets beyond 32 bits: seek / write / size / read on sparse files (2^31-1 .. 2^40), judged by the text judge with contents kept as size + '
+                  'non-zero bytes; the extracted model (Peano positions) is not asked there.')
     level_note = ('Partial for B: the kernel (path resolution with symbolic links, open/read/write/lseek/ftruncate/sendfile/rename/unlink/'
                   'mkdir/rmdir/symlink/stat/lstat/readdir; FsModel part K) is a trusted model, validated only by correspondence on one '
                   'file system (the sandbox reports ext2/ext3; uid 0, so no permission failures; no hard links); descriptors name files by '
@@ -1225,14 +1356,17 @@ class C19(Check):
                   'correspondence only. The unlink theorem and create_succeeds are stated for relative texts of proper names through real directories '
                   '(create_succeeds: names without backslash); unlink/create through \'.\', \'..\' or symbolic links by judge and '
                   'correspondence only. create false => not-exists needs a path text without backslash (the code splits parents at '
-                  'backslashes too, the kernel does not). getRelativePath: from and to of the same kind and no leading \'..\' left in '
-                  'simplifyPath(from) (otherwise no lexical answer exists). Choices where the text is silent and the Spec/judge follows '
+                  'backslashes too, the kernel does not). getRelativePath: from and to of the same kind, and simplifyPath(from) keeps no more leading \'..\' than simplifyPath(to) '
+                  '(PathSpec.rel_hyp_wide: the class in which a lexical answer exists - with more, one would need a name no lexical function has; until round 5 the '
+                  'hypothesis excluded every `from` with a leading \'..\'; widening it found that the code answered "../../.." for ("../a", ".."), repair fixes/C19/11; '
+                  'theorem relative_path_denotes_target_wide is about the repaired code). Choices where the text is silent and the Spec/judge follows '
                   'the code: simplifyPath keeps "/.." ; absolute = starts with a separator; appendFlag is one lseek to the end at open, '
                   'not O_APPEND; only write-only without append/open flag truncates; a Directory::create that fails may leave the parents '
                   'it made (directories, never files); File::rename(dir, new, failIfExists=true) always fails because the placeholder is a '
                   'regular file (it reports failure and leaves nothing, so the text is met; making it work needs a directory '
-                  'placeholder); copy onto the same file is refused (EINVAL) even when the file is empty. Tie limits: contents up to '
-                  '200 KB (thorough 1 MiB; the extracted model computes on Peano numbers and lists), absolute paths only in the chroot '
+                  'placeholder - a tree that does that is accepted by the property oracle and differs from the model only: A2-04-H); copy onto the same file is refused (EINVAL) even when the file is empty. Tie limits: contents up to '
+                  '200 KB (thorough 1 MiB; the extracted model computes on Peano numbers and lists; offsets up to 2^40 on sparse files by the text judge only - '
+                  'readAll and copy are not driven there, they size a buffer / move every byte), absolute paths only in the chroot '
                   'stream (needs uid 0, skipped otherwise), path texts ending in a separator only for Directory::create/unlink/exists '
                   '(the kernel model ignores a trailing separator, which is wrong for files and links under open/unlink/rename/copy: not '
                   'generated), descriptor 0 is never free in the harness (File stores the descriptor with 0 meaning closed: an open that '
@@ -1276,14 +1410,19 @@ class C19(Check):
             'readAll(path) / exists / flush / getAbsolutePath / cwd / change on random trees (flush on directory handles, readAll of directories - '
             'the witness of fix 10); purge on chains with siblings, every empty chain of depth <= 4 from every level, absolute chains in the chroot; '
             'unlink / purge with one failing call at every position on 4 fixed trees and at random positions on random chains. Non-trivial = a '
-            'library operation ran and its answer was observed; distinct = distinct op text.')
+            'library operation ran and its answer was observed; distinct = distinct op text. Round 5: every path of <= 6 (7) components over {a b .. .}, '
+            'relative and absolute, through simplifyPath (paths-dots); every pair of paths of <= 3 (4) components over {a b ..}, both relative / both absolute, through '
+            'getRelativePath (relative-dots); names starting with a dot (.d/ .git/ .h .hidden ..x .l -> outside) in the random trees, the chains, one fixed and one fault '
+            'tree; 24 (96) sparse-file cases with offsets 2^31-1, 2^31, 2^31+1, 2^32-1, 2^32, 2^32+5, 2^33+7, 2^40+3 (absolute, relative, from the end, negative targets, '
+            'append at > 4 GiB, rename + reopen).')
     assumptions = ['kernel file-system semantics as modelled in coq/Path/FsModel.v part K (validated by correspondence on the sandbox file system, reported as ext2/ext3, uid 0)',
                    'no file is renamed or unlinked while a handle on it is open; no hard links; no permission failures',
                    'single read()/write() calls complete; ftruncate/fstat/lseek/close do not fail (sendfile may be short or fail: modelled)',
                    'readdir reports exact entry types (dirent.d_type never DT_UNKNOWN: Directory::unlink would take a directory for a file and fail); the order of readdir does not matter as long as no removal fails midway',
                    'descriptor 0 is in use (File treats descriptor 0 as "closed")',
                    'path texts ending in a separator: only Directory::create/unlink/exists',
-                   'getRelativePath: same kind of from/to, simplifyPath(from) has no leading ".."',
+                   'getRelativePath: same kind of from/to, simplifyPath(from) keeps no more leading ".." than simplifyPath(to) (otherwise no lexical answer exists)',
+                   'what the text obliges to succeed is read as: texts of plain names through real directories, parent exists, place free (copy: or a regular file, without failIfExists), no injected outcome consumed, current directory not changed in the case',
                    'Directory::create false => not-exists: path text without backslash; create_succeeds / unlink / purge / fault theorems: relative texts of proper names through real directories',
                    'fnmatch(pattern, name, 0) as modelled for patterns of literal bytes, * and ? (FsModel.glob, proved equal to the reference relation FsSpec.matches)',
                    'a directory is not changed between Directory::open and the reads; at most one system call of an unlink / purge fails (EIO)',
@@ -1305,11 +1444,62 @@ class C19(Check):
                 res[i] = o
         return [self._wild(c) if r is None else r for c, r in zip(cases, res)]
 
+    def _run_driver(self, cases, tag, args):
+        """the extracted model / spec; the stream with contents of up to 1 MiB (Peano numbers, lists) gets the time it
+        needs on a loaded machine instead of vf's default 60 + 30 + 0.05 n seconds per shard"""
+        import vf
+        if 'fs-big' not in tag:
+            return vf.run_sharded(self.exes['model'], cases, os.path.join(vf.BUILD, self.id, 'run'), tag, args)
+        from concurrent.futures import ThreadPoolExecutor
+        k = 4
+        shards = [cases[j::k] for j in range(k)]
+        with ThreadPoolExecutor(max_workers=k) as ex:
+            futs = [ex.submit(vf.run_exe_on_cases, self.exes['model'], sh_, os.path.join(vf.BUILD, self.id, 'run'), '%s_s%d' % (tag, j),
+                              args, 2400) for j, sh_ in enumerate(shards) if sh_]
+            parts = [f.result()[0] for f in futs]
+        res = [None] * len(cases)
+        live = [j for j in range(k) if shards[j]]
+        for j, part in zip(live, parts):
+            for n_, o in enumerate(part):
+                res[j + n_ * k] = o
+        return res
+
     def run_model(self, cases, tag='model'):
-        return self._split_run(cases, lambda cs: Check.run_model(self, cs, tag))
+        return self._split_run(cases, lambda cs: self._run_driver(cs, tag, self.model_args))
+
+    # A tree on which the harness crashes or hangs on (nearly) every case: give up early.  The harness runs in chunks;
+    # after CRASH_CAP crashes / watchdog timeouts in one stream the rest of that stream, and after TOTAL_CAP in the whole
+    # run every remaining stream, is marked '! notrun' (vf drops such cases); what has been seen is reported.
+    per_case_timeout = 5
+    CRASH_CAP = 150
+    TOTAL_CAP = 220
+    _crashes_seen = 0
+
+    def run_impl(self, cases, tag='impl'):
+        import vf
+        wd = os.path.join(vf.BUILD, self.id, 'run')
+        env = {'ASAN_OPTIONS': 'detect_leaks=0:abort_on_error=0:allocator_may_return_null=1:max_allocation_size_mb=2048:symbolize=0'}
+        res, crashes, bad = [], {}, 0
+        streaming = tag.startswith('impl_')           # the caps are for the streams, not for shrinking / replay
+        chunk = 60
+        for a in range(0, len(cases), chunk):
+            part = cases[a:a + chunk]
+            if streaming and (bad >= self.CRASH_CAP or self._crashes_seen >= self.TOTAL_CAP):
+                res += [['! notrun'] for _ in part]
+                continue
+            r, cr = vf.run_exe_on_cases(self.exes['impl'], part, wd, tag, is_impl=True, per_case_timeout=self.per_case_timeout, env=env)
+            res += r
+            for k, v in cr.items():
+                crashes[a + k] = v
+            bad += len(cr)
+            if streaming:
+                self._crashes_seen += len(cr)
+        if streaming and (bad >= self.CRASH_CAP or self._crashes_seen >= self.TOTAL_CAP):
+            vf.log('[C19] %s: %d harness crashes / timeouts in this stream (%d in the run): remaining cases not run' % (tag, bad, self._crashes_seen))
+        return res, crashes
 
     def run_spec(self, cases, tag='spec'):
-        return self._split_run(cases, lambda cs: Check.run_spec(self, cs, tag))
+        return self._split_run(cases, lambda cs: self._run_driver(cs, tag, self.spec_args))
 
     def nontrivial(self, case, obs):
         if case and case[0].startswith('@fs'):
@@ -1358,7 +1548,7 @@ class C19(Check):
             if i in text_failed:
                 continue
             if cases[i] and cases[i][0].startswith('@fs'):
-                s, o = under_faults(s, o)
+                s, o = spec_lines_that_count(s, o)
             k = first_diff(s, o)
             if k is None:
                 continue
